@@ -25,6 +25,7 @@ ASSUMED = [
      "keys": ["struct PlExpr", "struct NameMap", "fn view", "fn insert", "fn verif_zip", "fn last_segment_of", "spec fn last_segment", "fn to_string_s", "fn box_ty", "fn module_default",
               "fn expr_id"]},
     common_std.VERIF_ITER_ASSUMPTION,
+    dict(common_std.STD_ASSUMPTION, keys=["core::mem::replace::<T>", "core::mem::take::<T>", "Option::<T>::or", "Option::<T>::filter"]),
     {"what": "Resolver is the shim {root_mod.module (stack_push: external, no contract), current_module_path, ghost log}; Resolver::fold_expr is external: it records "
              "(expression, module path in effect) in the log and leaves the path alone; Ident is the shim {path, name}; Vec<String>::clone returns an equal vector; "
              "std::mem::replace stores the new value and returns the old one",
@@ -44,7 +45,7 @@ PRELUDE = r"""
 use vstd::prelude::*;
 use std::result::Result::*;
 verus! {
-""" + common_rq.OPAQUE + common_std.VERIF_ITER + r"""
+""" + common_rq.OPAQUE + common_std.VERIF_ITER + common_std.STD_SPECS + r"""
 #[verifier::external_body] pub struct PlExpr { _p: u8 }
 pub type Expr = PlExpr;
 pub type Ty = OpaqueT;
